@@ -72,8 +72,98 @@ def tidOf (addr : Int) : Nat := addr.toNat
 /-- a peer that swallows everything (for `upload`) -/
 def nullPeer : Peer Unit := { onSend := fun s _ => (s, []), onWaitDone := fun s => (s, []) }
 
+/-! ### histories: several loaders / connections / copters -/
+
+def parseCTarget? (seed : Nat) (ci : Nat) (s : String) : Option CTarget :=
+  match (s.splitOn ":").mapM String.toNat? with
+  | some [tid, ps, bp, fp, sp] =>
+    some { tid := tid, geom := { addr := tid, pageSize := ps, bufferPages := bp, flashPages := fp, startPage := sp },
+           mem := initTarget (seed + tid + 17 * ci) }
+  | _ => none
+
+def parseCopter? (seed : Nat) (ci : Nat) (s : String) : Option Copter :=
+  match s.splitOn "/" with
+  | [proto, script, tgts] => do
+    let proto ← if proto == "-" then some none else proto.toNat?.map some
+    let script ← parseScript? script
+    let ts ← (tgts.splitOn ",").mapM (parseCTarget? seed ci)
+    pure { targets := ts, proto := proto, infoScript := script, lateQ := [] }
+  | _ => none
+
+def parseHOp? (s : String) : Option HOp :=
+  match s.toList with
+  | ['n'] => some .new
+  | 'o' :: r => match ((String.ofList r).splitOn ":").mapM String.toNat? with
+    | some [k, c] => some (.openLink k c) | _ => none
+  | 'x' :: r => (String.ofList r).toNat?.map .closeLink
+  | 'u' :: r => match ((String.ofList r).splitOn ":").mapM String.toNat? with
+    | some [k, t] => some (.update k t) | _ => none
+  | 'r' :: r => match ((String.ofList r).splitOn ":").mapM String.toNat? with
+    | some [k, t] => some (.request k t) | _ => none
+  | 'c' :: r => (String.ofList r).toNat?.map .check
+  | 'f' :: r => match (String.ofList r).splitOn ":" with
+    | [k, key, img, ov] => do
+      let k ← k.toNat?
+      let key ← key.toNat?
+      let img ← ofHex? img
+      let ov ← parseOptInt? ov
+      pure (.flash k key img ov)
+    | _ => none
+  | _ => none
+
+def showGeom (g : Geom) : String := s!"{g.addr},{g.pageSize},{g.bufferPages},{g.flashPages},{g.startPage}"
+
+def showHRes : HRes → String
+  | .unit => "ok" | .bool b => if b then "true" else "false" | .geom g => s!"geom:{showGeom g}"
+  | .res r => showRes r | .err e => s!"err:{e}" | .stepBound => "step-bound" | .badOp => "bad-op"
+
+def loaderOf : HOp → Option Nat
+  | .new => none | .openLink k _ => some k | .closeLink k => some k | .update k _ => some k
+  | .request k _ => some k | .check k => some k | .flash k _ _ _ => some k
+
+def sentOf (w : World) (k : Option Nat) : List Pkt :=
+  match k with
+  | none => []
+  | some k => match w.loaders[k]? with
+    | some ls => match ls.ld.link with | some L => L.sent | none => []
+    | none => []
+
+/-- run the history; per operation: result and the packets transmitted during it -/
+def runHist (fuel : Nat) : World → List HOp → List String → World × List String
+  | w, [], acc => (w, acc.reverse)
+  | w, op :: ops, acc =>
+    let before := match op with | .openLink _ _ => [] | _ => sentOf w (loaderOf op)
+    let r := w.step fuel op
+    let after := match op with | .openLink _ _ | .closeLink _ => [] | _ => sentOf r.1 (loaderOf op)
+    runHist fuel r.1 ops (s!"{showHRes r.2}@{showPkts (after.drop before.length)}" :: acc)
+
+/-- current state of copter `c` (held by a link or in the world) -/
+def copterNow (w : World) (c : Nat) : Option Copter :=
+  match w.loaders.find? (fun ls => ls.conn == some c && ls.ld.link.isSome) with
+  | some ls => ls.ld.link.map (·.st)
+  | none => w.copters[c]?
+
+def showProbe (w : World) (s : String) : String :=
+  match (s.splitOn ":").mapM String.toNat? with
+  | some [c, tid, page] =>
+    match (copterNow w c).bind (·.find tid) with
+    | some ct => s!"{c}:{tid}:{page}:{toHex ((List.range ct.geom.pageSize).map (ct.mem.flash page))}"
+    | none => s!"{c}:{tid}:{page}:?"
+  | _ => "?"
+
 def step (_ : Unit) (ws : List String) : Unit × String :=
   match ws with
+  | ["hist", fuel, seed, copters, ops, probes] =>
+    match fuel.toNat?, seed.toNat? with
+    | some fuel, some seed =>
+      match ((copters.splitOn ";").zipIdx.mapM fun (x : String × Nat) => parseCopter? seed x.2 x.1),
+            (if ops == "-" then some [] else (ops.splitOn ";").mapM parseHOp?) with
+      | some cs, some ops =>
+        let r := runHist fuel { copters := cs, loaders := [] } ops []
+        let pr := if probes == "-" then "-" else ";".intercalate ((probes.splitOn ",").map (showProbe r.1))
+        ((), "|".intercalate r.2 ++ " flash=" ++ pr)
+      | _, _ => ((), "bad-op")
+    | _, _ => ((), "bad-op")
   | ["flash", addr, ps, bp, fp, sp, ov, term, img, script, seed, inbox, fprobe, bprobe] =>
     match addr.toInt?, ps.toNat?, bp.toNat?, fp.toNat?, sp.toNat?, parseOptInt? ov, parseBits? term, ofHex? img,
           parseScript? script, seed.toNat?, parsePkts? inbox, parseNatList? fprobe, parseNatList? bprobe with
